@@ -46,8 +46,10 @@ def documents():
     d['twin-forms'] = ((E('html', (), E('body', (), form, form, E('div', (), form))),), False, False)
     d['three-submits'] = ((E('form', (), E('div', (), inp(type='SUBMIT'), inp(type='submit')), E('button', (('type', 'submit'),)),
                              E('button')),), False, False)
-    radios = [inp(type='radio', name='n'), inp(type='radio', name='n'), inp(type='radio', name='m', checked=''),
-              inp(type='radio', name='m'), inp(type='radio'), inp(type='radio', name='')]
+    # boolean attributes count by presence: the checked members carry non-canonical values on purpose
+    radios = [inp(type='radio', name='n'), inp(type='radio', name='n'), inp(type='radio', name='m', checked='yes'),
+              inp(type='radio', name='m'), inp(type='radio'), inp(type='radio', name=''),
+              inp(type='radio', name='k'), inp(type='radio', name='k', checked='false'), inp(type='radio', name='k')]
     d['radio-groups'] = ((E('html', (), E('body', (), E('form', (), *radios), E('form', (), *radios[:4]),
                                             inp(type='radio', name='n'), inp(type='radio', name='m'),
                                             inp(type='checkbox', indeterminate=''), E('progress'))),), False, False)
